@@ -1,8 +1,172 @@
-import Quanto.Module
+/-
+C09 — `freeze()`: the quantized weight used by `forward` is the same immediately before and after
+freezing, freezing again changes nothing, along any interleaving of forward / freeze / deepcopy /
+device moves; after freeze a weight is stored in `ceil(rows × bits / 8) × (numel / rows)` payload
+bytes plus one scale (and zero-point) per output index or group.
+Helper definitions (`forwardPositions`, `stepsBefore`) and lemmas live in `Proofs/C09/Lemmas.lean`.
+-/
+import Proofs.C09.Lemmas
 namespace Quanto
+open C09
+
+/-! ### U1 — freeze keeps the quantized weight; freezing twice is freezing once -/
+
+theorem C09_freeze_preserves_qweight (s : WState) : s.freeze.qweightVersion = s.qweightVersion :=
+  WState.qweightVersion_freeze s
 
 /-- freezing twice is freezing once -/
 theorem C09_freeze_idempotent (s : WState) : s.freeze.freeze = s.freeze := by
   cases s <;> rfl
+
+/-- every event except an optimizer step keeps the quantized weight -/
+theorem C09_step_preserves_qweight (s : WState) (e : LifeEvent) (h : e ≠ .optimizerStep) :
+    (s.step e).qweightVersion = s.qweightVersion :=
+  WState.qweightVersion_step s e h
+
+/-! ### U2 — any interleaving of forward / freeze / freeze-again / deepcopy / device moves -/
+
+theorem C09_history (evs : List LifeEvent) (h : ∀ e ∈ evs, e ≠ .optimizerStep) (s : WState) :
+    ∀ v ∈ forwardVersions s evs, v = s.qweightVersion :=
+  forwardVersions_no_step evs h s
+
+/-- same statement, as an equation on the whole list of outputs -/
+theorem C09_history_eq (evs : List LifeEvent) (h : ∀ e ∈ evs, e ≠ .optimizerStep) (s : WState) :
+    forwardVersions s evs = List.replicate (evs.count .forward) s.qweightVersion := by
+  rw [List.eq_replicate_iff]
+  exact ⟨forwardVersions_length evs s, C09_history evs h s⟩
+
+/-- one output per `forward` -/
+theorem C09_history_length (evs : List LifeEvent) (s : WState) :
+    (forwardVersions s evs).length = evs.count .forward :=
+  forwardVersions_length evs s
+
+/-! ### U3 — a frozen weight ignores optimizer steps; an unfrozen one tracks them -/
+
+theorem C09_frozen_ignores_steps (v : Nat) (evs : List LifeEvent) :
+    ∀ w ∈ forwardVersions (.frozen v) evs, w = v :=
+  forwardVersions_frozen v evs
+
+/-- without a freeze, the forward at position `i` uses the initial float weight plus all the
+optimizer steps before it -/
+theorem C09_unfrozen_tracks_steps (v : Nat) (evs : List LifeEvent) (h : ∀ e ∈ evs, e ≠ .freeze) :
+    forwardVersions (.float v) evs =
+      (forwardPositions evs).map fun i => v + (evs.take i).count .optimizerStep := by
+  rw [forwardVersions_float_eq]
+  apply List.map_congr_left
+  intro i _
+  rw [stepsBefore_no_freeze evs h]
+
+/-- with freezes: only the optimizer steps before the first freeze count (`stepsBefore`) -/
+theorem C09_tracks_steps_until_freeze (v : Nat) (evs : List LifeEvent) :
+    forwardVersions (.float v) evs = (forwardPositions evs).map fun i => v + stepsBefore evs i :=
+  forwardVersions_float_eq evs v
+
+/-! ### U4 — storage of a frozen weight -/
+
+theorem C09_storage_8bit (q : QType) (rows cols : Nat) (gs : Option Nat) (h : q.bits = 8) :
+    frozenPayloadBytes q rows cols gs = rows * cols ∧ frozenScaleCount q rows cols gs = rows := by
+  unfold frozenPayloadBytes frozenScaleCount
+  rw [h]
+  exact ⟨rfl, rfl⟩
+
+theorem C09_storage_lowbit_ungrouped (q : QType) (rows cols : Nat) (h : q.bits = 2 ∨ q.bits = 4) :
+    frozenPayloadBytes q rows cols none = ceilDiv (rows * q.bits) 8 * cols ∧
+      frozenScaleCount q rows cols none = rows := by
+  rw [frozenPayloadBytes_low q h, frozenScaleCount_low q h]
+  exact ⟨rfl, rfl⟩
+
+/-- the payload `pack_weights` builds from a `[rows, cols]` code matrix has exactly
+`frozenPayloadBytes` elements, and there is one scale per row -/
+theorem C09_storage_matches_packing (q : QType) (bits rows cols : Nat) (hq : bits = q.bits)
+    (hb : bits = 2 ∨ bits = 4) (t : T Nat) (ht : t.shape = [rows, cols]) :
+    (packWeights bits t).shape = [ceilDiv (rows * bits) 8, cols] ∧
+      prod (packWeights bits t).shape = frozenPayloadBytes q rows cols none ∧
+      (packWeights bits t).data.size = frozenPayloadBytes q rows cols none ∧
+      prod (keptShape t.shape true) = frozenScaleCount q rows cols none := by
+  have hs : (packWeights bits t).shape = [ceilDiv (rows * bits) 8, cols] := by
+    rw [C04_dense bits hb t, ht]; rfl
+  have hp := (C09_storage_lowbit_ungrouped q rows cols (hq ▸ hb))
+  have e : prod (packWeights bits t).shape = frozenPayloadBytes q rows cols none := by
+    rw [hs, hp.1, ← hq]; simp [prod]
+  refine ⟨hs, e, by rw [C04_dense_size, e], ?_⟩
+  rw [hp.2, ht]; simp [keptShape, prod]
+
+theorem C09_storage_lowbit_grouped (q : QType) (rows cols g : Nat) (h : q.bits = 2 ∨ q.bits = 4) :
+    frozenPayloadBytes q rows cols (some g) = ceilDiv (rows * cols / g * q.bits) 8 * g ∧
+      frozenScaleCount q rows cols (some g) = rows * cols / g := by
+  rw [frozenPayloadBytes_low q h, frozenScaleCount_low q h]
+  exact ⟨rfl, rfl⟩
+
+/-- the grouped view of the weight is the `[R, g]` matrix, `R = rows * cols / g`, with as many
+elements as the weight -/
+theorem C09_grouped_view (rows cols g : Nat) (hr : 0 < rows) (hc : 0 < cols) (hg : 0 < g) (hd : g ∣ cols) :
+    groupShape [rows, cols] true g = some [rows * cols / g, g] ∧ rows * cols / g * g = rows * cols := by
+  have hs := groupShape_matrix rows cols g hr hc hg hd
+  refine ⟨hs, ?_⟩
+  have := C03_group_numel _ _ _ _ hs
+  simpa [prod] using this
+
+/-- grouped storage: what `pack_weights` builds from the grouped `[R, g]` code matrix has exactly
+`frozenPayloadBytes` elements, and there is one scale per group row -/
+theorem C09_storage_grouped_matches_packing (q : QType) (bits rows cols g : Nat) (hq : bits = q.bits)
+    (hb : bits = 2 ∨ bits = 4) (hr : 0 < rows) (hc : 0 < cols) (hg : 0 < g) (hd : g ∣ cols)
+    (t : T Nat) (ht : some t.shape = groupShape [rows, cols] true g) :
+    (packWeights bits t).shape = [ceilDiv (rows * cols / g * bits) 8, g] ∧
+      prod (packWeights bits t).shape = frozenPayloadBytes q rows cols (some g) ∧
+      (packWeights bits t).data.size = frozenPayloadBytes q rows cols (some g) ∧
+      prod (keptShape t.shape true) = frozenScaleCount q rows cols (some g) := by
+  rw [groupShape_matrix rows cols g hr hc hg hd] at ht
+  have ht := Option.some.inj ht
+  have hs : (packWeights bits t).shape = [ceilDiv (rows * cols / g * bits) 8, g] := by
+    rw [C04_dense bits hb t, ht]; rfl
+  have hp := (C09_storage_lowbit_grouped q rows cols g (hq ▸ hb))
+  have e : prod (packWeights bits t).shape = frozenPayloadBytes q rows cols (some g) := by
+    rw [hs, hp.1, ← hq]; simp [prod]
+  refine ⟨hs, e, by rw [C04_dense_size, e], ?_⟩
+  rw [hp.2, ht]; simp [keptShape, prod]
+
+/-- the automatic group size of a quantized module always satisfies the side conditions above -/
+theorem C09_autogroup_storage (q : QType) (rows cols g : Nat) (h : q.bits = 2 ∨ q.bits = 4)
+    (hr : 0 < rows) (ha : autoGroup cols = some g) :
+    groupShape [rows, cols] true g = some [rows * cols / g, g] ∧
+      frozenPayloadBytes q rows cols (some g) = ceilDiv (rows * cols / g * q.bits) 8 * g ∧
+      frozenScaleCount q rows cols (some g) = rows * cols / g := by
+  obtain ⟨hd, hm, hn⟩ := C14_autogroup_some cols g ha
+  have hg : 0 < g := by
+    simp only [List.mem_cons, List.not_mem_nil, or_false] at hm; omega
+  exact ⟨groupShape_matrix rows cols g hr (by omega) hg hd, C09_storage_lowbit_grouped q rows cols g h⟩
+
+/-! ### non-vacuity -/
+
+example : forwardVersions (.float 7) [.forward, .freeze, .forward, .deepcopy, .freeze, .forward] = [7, 7, 7] := by
+  decide
+
+example : ∀ v ∈ forwardVersions (.float 7) [.forward, .freeze, .forward, .deepcopy, .freeze, .forward], v = 7 :=
+  C09_history _ (by decide) (.float 7)
+
+example : forwardVersions (.float 0) [.forward, .optimizerStep, .forward, .optimizerStep, .toDevice, .forward] =
+    [0, 1, 2] := by decide
+
+example : forwardVersions (.float 0) [.forward, .optimizerStep, .forward, .freeze, .optimizerStep, .forward] =
+    [0, 1, 1] := by decide
+
+example : (forwardPositions [.forward, .optimizerStep, .forward, .freeze, .optimizerStep, .forward]).map
+    (fun i => stepsBefore [.forward, .optimizerStep, .forward, .freeze, .optimizerStep, .forward] i) = [0, 1, 1] := by
+  decide
+
+example : frozenPayloadBytes .qint4 8 256 (some 128) = 1024 ∧ frozenScaleCount .qint4 8 256 (some 128) = 16 := by
+  decide
+
+example : frozenPayloadBytes .qint4 8 256 (some 128) = ceilDiv (8 * 256 / 128 * 4) 8 * 128 ∧
+    frozenScaleCount .qint4 8 256 (some 128) = 8 * 256 / 128 :=
+  C09_storage_lowbit_grouped .qint4 8 256 128 (Or.inr rfl)
+
+example : groupShape [8, 256] true 128 = some [16, 128] ∧ 8 * 256 / 128 * 128 = 8 * 256 :=
+  C09_grouped_view 8 256 128 (by decide) (by decide) (by decide) (by decide)
+
+example : frozenPayloadBytes .qint8 8 256 none = 2048 ∧ frozenScaleCount .qint8 8 256 none = 8 :=
+  C09_storage_8bit .qint8 8 256 none rfl
+
+example : frozenPayloadBytes .qint2 5 3 none = 6 ∧ frozenScaleCount .qint2 5 3 none = 5 := by decide
 
 end Quanto
